@@ -272,6 +272,9 @@ class SheetGen:
         elif t in ("add_to_group", "remove_from_group"):
             # (a group may well be called like a flow: they are different objects with identifiers of their own)
             row["message_text"] = rng.choice(["GrpA", "GrpB", "Grp D", "GrpA", "child one"])
+            if rng.random() < 0.25:
+                # several groups in one cell: the action names every one of them, in order
+                row["message_text"] = ";".join(rng.sample(["GrpA", "GrpB", "Grp D", "GrpC", "child one"], rng.randint(2, 3)))
         elif t == "save_flow_result":
             row["message_text"] = f"res{n}"
             row["save_name"] = rng.choice(["answer", "score"])
@@ -480,9 +483,11 @@ def reference_row(row) -> dict:
     elif t == "save_value":
         act = {"type": "set_contact_field", "field": {"name": row.save_name, "key": field_key(row.save_name)}, "value": row.mainarg_value}
     elif t == "add_to_group":
-        act = {"type": "add_contact_groups", "groups": [{"name": row.mainarg_groups[0]}]}
+        # every listed group: the first as written, further blank entries skipped
+        act = {"type": "add_contact_groups", "groups": [{"name": row.mainarg_groups[0]}] + [{"name": g} for g in row.mainarg_groups[1:] if g]}
     elif t == "remove_from_group":
-        act = {"type": "remove_contact_groups", "groups": [{"name": row.mainarg_groups[0]}]}
+        # every listed group: the first as written, further blank entries skipped
+        act = {"type": "remove_contact_groups", "groups": [{"name": row.mainarg_groups[0]}] + [{"name": g} for g in row.mainarg_groups[1:] if g]}
     elif t == "save_flow_result":
         act = {"type": "set_run_result", "name": row.save_name, "value": row.mainarg_value}
         if row.result_category:
